@@ -41,7 +41,7 @@ Inductive shape :=
 | Single                    (* root media type is not multipart/* (or unparsable Content-Type) *)
 | MultiB (n : nat)          (* multipart/*; boundary=b, the reader walks the body to the end:
                                n part rows below the root container (nested ones included) *)
-| MultiNoBoundary           (* multipart/* whose boundary parameter is missing or empty *)
+| MultiNoBoundary           (* multipart/* whose boundary parameter is missing or empty: one part row *)
 | MultiBroken.              (* multipart/*; boundary=b, multipart.Reader.NextPart fails *)
 
 Record parsed := mkParsed {
@@ -57,7 +57,8 @@ Definition parts_of (sh : shape) : option nat :=
   match sh with
   | Single => Some 1%nat
   | MultiB n => Some (S n)          (* the root container row + n rows *)
-  | MultiNoBoundary => Some 0%nat   (* "multipart detected but no boundary!": Parts stays nil *)
+  | MultiNoBoundary => Some 1%nat   (* stored as an ordinary single part with its raw body (raven f7e0490;
+                                       before: Parts stayed nil, zero rows, still linked and answered 250) *)
   | MultiBroken => None
   end.
 
